@@ -17,12 +17,14 @@ T1_RULE = ("every state of the real FixedBuf<N> reachable from every constructor
            "changes the state or returns bytes")
 
 def tokio_jobs(*modes):
+    # both profiles: `debug_assert!`s with side effects, overflow checks and anything else behind cfg(debug_assertions)
+    # differ between what the test suite runs (dev) and what users ship (release)
     def f(tier):
-        return [{"which": "tokio", "profile": "dev", "args": [m], "oc": True} for m in modes]
+        return [{"which": "tokio", "profile": p, "args": [m], "oc": p == "dev"} for m in modes for p in ("dev", "release")]
     return f
 
 
-def sync_jobs(mode, profiles=("dev",)):
+def sync_jobs(mode, profiles=("dev", "release")):
     def f(tier):
         return [{"which": "sync", "profile": p, "args": [mode], "oc": p == "dev"} for p in profiles]
     return f
@@ -45,7 +47,7 @@ PROPS = {
     "C07": {
         "module": "FBV.Props.C07b",
         "theorems": ["FBV.C07.serveZ_spec", "FBV.C07.drainZ_spec", "FBV.C07.serve_spec", "FBV.C07.drain_spec", "FBV.C07.chain_read_spec", "FBV.C07.ab_read_spec", "FBV.C02.read_frame_spec"],
-        "jobs": (lambda tier: [{"which": "sync", "profile": "dev", "args": ["pl"], "oc": True}, {"which": "tokio", "profile": "dev", "args": ["apl"], "oc": True}]),
+        "jobs": (lambda tier: [{"which": w, "profile": p, "args": [m], "oc": p == "dev"} for (w, m) in (("sync", "pl"), ("tokio", "apl")) for p in ("dev", "release")]),
         "tie": "T2 the loop of tests/server.rs re-expressed over a scripted transport (library calls are the real ones), blocking and tokio (hand-driven polls, Pending on reads and writes)",
         "rule": ("connections of 1-3 requests `[len byte][extra][CR]LF payload` with payload lengths {0,1,2,3,5,9} (payload bytes include LF/CR), truncated at random "
                  "points or followed by undelimited garbage; short connections x EVERY chunking x SIZE {4,6,8} x 6 destination-size schedules incl. zero-length "
@@ -91,8 +93,7 @@ PROPS = {
         "module": "FBV.Props.C12",
         "theorems": ["FBV.C12.no_call_when_frame_buffered", "FBV.C12.no_call_when_rejected", "FBV.C12.no_call_when_full", "FBV.C12.offers_ok", "FBV.C12.call_discipline", "FBV.C12.trace_log",
                      "FBV.C12.copy_once_from_spec", "FBV.pollLoop_outcome"],
-        "jobs": (lambda tier: [{"which": "sync", "profile": "dev", "args": ["rf"], "oc": True}, {"which": "sync", "profile": "dev", "args": ["rfe"], "oc": True},
-                               {"which": "sync", "profile": "dev", "args": ["t1"], "oc": True}]),
+        "jobs": (lambda tier: [{"which": "sync", "profile": p, "args": [m], "oc": p == "dev"} for m in ("rf", "rfe", "t1") for p in ("dev", "release")]),
         "tie": "T2 reader call logs of every read_frame call + T1 copy_once_from with every reader response 0..=offered, errors, panics, scribbling",
         "rule": RF_RULE + "; plus the T1 exploration for copy_once_from",
         "level_text": ("Kernel-checked: read_frame does not touch the reader when a complete frame or rejected data is buffered or the buffer is full; every "
@@ -136,8 +137,8 @@ PROPS = {
                      "FBV.C13.chain_write", "FBV.C13.chain_flush", "FBV.C13.take_write", "FBV.C13.take_flush",
                      "FBV.C13.chain_read_no_write", "FBV.C13.take_read_no_write",
                      "FBV.C13.achain_write", "FBV.C13.achain_flush", "FBV.C13.atake_write", "FBV.C13.atake_flush", "FBV.C13.asrw_pollRead_no_write"],
-        "jobs": (lambda tier: [{"which": "sync", "profile": "dev", "args": ["chain"], "oc": True}, {"which": "sync", "profile": "dev", "args": ["take"], "oc": True},
-                               {"which": "tokio", "profile": "dev", "args": ["achain"], "oc": True}, {"which": "tokio", "profile": "dev", "args": ["atake"], "oc": True}]),
+        "jobs": (lambda tier: [{"which": w, "profile": p, "args": [m], "oc": p == "dev"}
+                               for (w, m) in (("sync", "chain"), ("sync", "take"), ("tokio", "achain"), ("tokio", "atake")) for p in ("dev", "release")]),
         "tie": "T2 all four adapters over a logging inner read-writer (results full/partial/zero/error/Pending)",
         "rule": AD_RULE + "; the tokio adapters with ReadBufs of every pre-fill 0..2 x capacity {0,1,4}, Pending at any poll, flush and shutdown",
         "level_text": ("Definitional theorems, said plainly: in the model every adapter write/flush/shutdown is one call on the wrapped read-writer with the "
@@ -242,33 +243,33 @@ PROPS = {
     },
     "C01": {
         "module": "FBV.Props.C01b",
-        "theorems": ["FBV.C01.stepWV_sat", "FBV.C01.stepRV_sat", 'FBV.C01.step_sat', 'FBV.C01.sat_conserves', 'FBV.C01.fifo_history', 'FBV.C01.only_clear_discards', 'FBV.step_WInv', 'FBV.reachable_WInv'],
+        "theorems": ["FBV.C01.stepWV_sat", "FBV.C01.stepRV_sat", "FBV.C01.stepWF_sat", "FBV.C01.stepRE_sat", 'FBV.C01.step_sat', 'FBV.C01.sat_conserves', 'FBV.C01.fifo_history', 'FBV.C01.only_clear_discards', 'FBV.step_WInv', 'FBV.reachable_WInv'],
         "level_text": "Kernel-checked: for EVERY state with ri<=wi<=SIZE, EVERY public call (all write paths, all read paths incl. deframe/io::Read/try_parse scripts, shift, clear) with EVERY argument and both overflow-check settings, the unread bytes change exactly by what the call hands out / accepts and len()/is_empty() describe them (step_sat); lifted by induction to every finite history from any constructor (fifo_history: taken ++ readable = initial ++ accepted). The model's step function is tied to the real FixedBuf transition by transition from the implementation's own observed state (exhaustive for small SIZE, random walks up to SIZE 4096), and the same executable predicate Sat_C01 is evaluated on the implementation's transitions.",
-        "jobs": t1_jobs(["dev"]),
+        "jobs": t1_jobs(["dev", "release"]),
         "tie": "T1 (transition-level, from the implementation's observed state)",
         "rule": T1_RULE,
     },
     "C03": {
         "module": "FBV.Props.C01b",
-        "theorems": ["FBV.C01.stepWV_sat", "FBV.C01.stepRV_sat", 'FBV.C03.step_sat', 'FBV.C03.history_capacity', 'FBV.step_WInv', 'FBV.reachable_WInv'],
+        "theorems": ["FBV.C01.stepWV_sat", "FBV.C01.stepRV_sat", "FBV.C01.stepWF_sat", "FBV.C01.stepRE_sat", 'FBV.C03.step_sat', 'FBV.C03.history_capacity', 'FBV.step_WInv', 'FBV.reachable_WInv'],
         "level_text": 'Kernel-checked for every weakly well-formed state, every call, every argument, both profiles: a write of n bytes succeeds iff n<=free and shrinks the free space by exactly n; a refused write changes nothing; shift/clear/draining reads reclaim all capacity; reads, queries and failed calls never shrink the free space; len+free<=SIZE over every history. Tied to the code by the T1 transition correspondence with boundary lengths free-1, free, free+1 generated by construction.',
-        "jobs": t1_jobs(["dev"]),
+        "jobs": t1_jobs(["dev", "release"]),
         "tie": "T1",
         "rule": T1_RULE,
     },
     "C04": {
         "module": "FBV.Props.C01b",
-        "theorems": ["FBV.C01.stepWV_sat", "FBV.C01.stepRV_sat", 'FBV.C04.step_sat', 'FBV.C04.read_bytes_contract', 'FBV.C04.wrote_contract', 'FBV.C04.Legacy.legacy_wrote_silently_succeeds', 'FBV.C04.Legacy.legacy_read_bytes_unconsumes', 'FBV.C04.Legacy.legacy_wrote_dev_panics'],
+        "theorems": ["FBV.C01.stepWV_sat", "FBV.C01.stepRV_sat", "FBV.C01.stepWF_sat", "FBV.C01.stepRE_sat", 'FBV.C04.step_sat', 'FBV.C04.read_bytes_contract', 'FBV.C04.wrote_contract', 'FBV.C04.Legacy.legacy_wrote_silently_succeeds', 'FBV.C04.Legacy.legacy_read_bytes_unconsumes', 'FBV.C04.Legacy.legacy_wrote_dev_panics'],
         "level_text": 'Kernel-checked for BOTH values of the overflow-check flag and every count n (unbounded Nat, so every usize): read_byte/read_bytes(n) panic iff n>len(), wrote(n) iff n>writable().len(), no other call panics with contract-honouring collaborators, and a panicking call (incl. a panicking reader inside copy_once_from) leaves indices and unread bytes unchanged. The correspondence runs the real code in BOTH build profiles (dev: overflow checks on; release: off) with wrap-around counts. The defect found on the pinned tree (release: wrote(usize::MAX) silently un-commits) is recorded as theorems about the legacy functions and was repaired by a fix: commit.',
-        "jobs": t1_jobs(["dev", "release"]),
-        "tie": "T1 in both build profiles (overflow checks on / off)",
+        "jobs": (lambda tier: [{"which": "sync", "profile": p, "args": [m], "oc": p == "dev"} for m in ("t1", "es", "df", "chain", "take") for p in ("dev", "release")]),
+        "tie": "T1 in both build profiles (overflow checks on / off); the escape / Debug, deframer and adapter explorations for panics outside FixedBuf's own methods",
         "rule": T1_RULE,
     },
     "C10": {
         "module": "FBV.Props.C10",
         "theorems": ['FBV.C10.step_sat', 'FBV.C10.deframe_general', 'FBV.dfOf_bounds', 'FBV.deframeM_eq'],
         "level_text": 'Kernel-checked for every weakly well-formed state and any deframer honouring the bounds clause: deframe changes the buffer iff the deframer reports a frame; then exactly the block is consumed (incl. the rewind when it ends at the end of the unread bytes), mem() is untouched and mem()[range] is the payload the deframer selected; empty/None/Err consume nothing. Tied by T1 with six deframers (three provided, rejecting, reject-x, length-prefixed with a payload range not starting at 0).',
-        "jobs": t1_jobs(["dev"]),
+        "jobs": t1_jobs(["dev", "release"]),
         "tie": "T1",
         "rule": T1_RULE,
     },
@@ -276,7 +277,7 @@ PROPS = {
         "module": "FBV.Props.C11",
         "theorems": ['FBV.C11.step_sat', 'FBV.tryParse_spec', 'FBV.runOps_spec', 'FBV.runOp_spec'],
         "level_text": 'Kernel-checked by structural induction over nested read scripts (all eight read calls, try_parse nested to any depth): a closure ending in None leaves the whole state exactly as before; ending in Some, exactly the scripted number of bytes is gone; independent of the overflow-check setting. Tied by T1: the harness closure interprets every script of length <=2 (incl. nesting) on the real buffer from every small reachable state.',
-        "jobs": t1_jobs(["dev"]),
+        "jobs": t1_jobs(["dev", "release"]),
         "tie": "T1",
         "rule": T1_RULE,
     },
